@@ -50,6 +50,9 @@ func TestSim(t *testing.T) {
 	for i := from; i < from+n; i++ {
 		seed := RunSeed(base, uint64(i))
 		plan := sc.Gen(seed, "quick")
+		if f := os.Getenv("NSIM_DUMPSEGS"); f != "" && i == from+n-1 {
+			dumpSegs, _ = os.Create(f)
+		}
 		res := RunPlan(t, sc, plan, verbose)
 		steps += res.Steps
 		hashes[res.TraceHash] = true
